@@ -38,6 +38,7 @@ def run(R):
     for l in rep.bad[:3]:
         R.proof_problems.append("runner could not parse: " + l[:200])
     tc.count_cases(R, rep, text)
+    tc.oracle_selftest(R, exe, text)
     R.coverage["rule"] = ("one evaluation = one generated RIB history (6..40 ops of reg/unreg/cleanup over nested and sibling prefixes of depth 0..7 with gaps, "
                           "faces 1..4, origins {0,65,128,255}, costs incl. 0 and 2^64-1, all four child-inherit/capture flag combinations) run against one FIB "
                           "implementation (each history is run against both); after every op every universe name is looked up, FIB and RIB are listed and all nodes dumped; "
